@@ -167,11 +167,69 @@ def _move_into_templated_page(ctx, res, rng, job):
     return None
 
 
+def _failed_then_repaired(ctx, res, rng, job):
+    """an initialisation that cannot be rendered (template file not there yet, a variable only another entry path supplies, a
+    date-shaped capture that is no date) writes nothing; once the cause is gone the same call writes exactly the rendering"""
+    from zorg.service.templates import init_from_template
+
+    zdir = ctx.tmp / "z"
+    zdir.mkdir(parents=True)
+    variant = job % 3
+    tmpl = ["# TEMPLATE log\n\n## {{ name }}\n- templated note\n",
+            "# TEMPLATE child\n\n## Child of {{ parent.upper() }}\n- see [[{{ parent }}]]\n",
+            "# TEMPLATE day\n\n## {{ date.strftime('%Y-%m-%d') }}\n- a day\n"][variant]
+    rx, target, vars1, vars2 = [(r"^log/(?P<name>[a-z]+)\.zo$", "log/today.zo", None, None),
+                                (r"^kids/(?P<name>[a-z]+)\.zo$", "kids/tom.zo", None, {"parent": "home"}),
+                                (r"^(?P<date>[0-9]{8})\.zo$", "20240230.zo", None, None)][variant]
+    # (forked workers share ZorgTemplateManager's class-level scratch directory, which is keyed by the template's file name: every
+    # job uses a name of its own)
+    tname = f"t{job}.zot"
+    pmap = {re.compile(rx): Path("tmpl") / tname}
+    (zdir / "tmpl").mkdir()
+    if variant != 0:
+        (zdir / "tmpl" / tname).write_text(tmpl)
+
+    def attempt(tgt, vm):
+        try:
+            with contextlib.redirect_stderr(io.StringIO()), contextlib.redirect_stdout(io.StringIO()):
+                init_from_template(zdir, pmap, tgt, var_map=vm)
+            return None
+        except Exception as e:  # noqa
+            return f"{type(e).__name__}: {e}"[:200]
+
+    before = Z.snapshot_dir(zdir)
+    exc = attempt(target, vars1)
+    res.evaluations += 1
+    res.count(f"failed_init variant={variant} raised={exc is not None}")
+    after = Z.snapshot_dir(zdir)
+    case = {"kind": "failed_init", "variant": variant, "template": tmpl, "pattern": rx, "target": target, "raised": exc}
+    if after != before:
+        res.failures.append(C.Failure(f"an initialisation that could not be rendered ({exc}) changed the notes directory: {sorted(set(after) ^ set(before))} "
+                                      f"{target}={after.get(target)!r}", case))
+        return None
+    # the cause goes away
+    if variant == 0:
+        (zdir / "tmpl" / tname).write_text(tmpl)
+    if variant == 2:
+        target = "20240229.zo"
+    exc2 = attempt(target, vars2)
+    got = (zdir / target).read_text() if (zdir / target).exists() else None
+    cap = re.compile(rx).match(target).groupdict()
+    want = py_render(py_build(tmpl), {**(vars2 or {}), **cap})
+    res.evaluations += 1
+    if exc2 or got != want:
+        res.failures.append(C.Failure(f"after the cause of the failure was removed, init of {target} gives {got!r} (raised {exc2}), want {want!r}", {**case, "kind": "retry"}))
+    res.nontrivial.add(("failed_init", variant))
+    return None
+
+
 def body(ctx: C.Ctx, proof: C.ProofStatus) -> C.Result:
     from zorg.service.templates import init_from_template
 
     Z.silence_logs()
     res, _ = C.parallel_jobs(ctx, ctx.scale(9, 60), _move_into_templated_page)
+    res2, _ = C.parallel_jobs(ctx, 6, _failed_then_repaired)
+    res.merge(res2)
     rng = ctx.rng
     n = ctx.scale(600, 15000)
     reqs, metas = [], []
@@ -272,7 +330,7 @@ RULE = (
     "random pattern maps (0-5 overlapping regexes with named groups / date-like captures), templates incl. equal basenames in "
     "different directories, 1-4 init steps per directory in one process (existing/missing targets, sub-directories, -f, explicit "
     "template, variables; via init_from_template and `zorg template init`); target bytes + all other files before/after vs. an "
-    "independent reading and vs. the Lean decision model + template pre-processing; non-trivial = a step that wrote a file"
+    "independent reading and vs. the Lean decision model + template pre-processing; failed renderings (template file missing, undefined variable, date-shaped non-date) write nothing and the retry writes the rendering; non-trivial = a step that wrote a file"
 )
 ASSUME = ["re.match and jinja2 rendering are parameters (computed by Python on both sides)", "file system atomic"]
 
